@@ -642,6 +642,10 @@ Fixpoint wild_last_only_c (cs : list bytes) : bool :=
 Definition wild_last_only (reqs : list bytes) : bool :=
   forallb (fun s => wild_last_only_c (norm_clamp (comps s))) reqs.
 
+(* no component of a link target looks like a pattern (containsWildcards) *)
+Definition literal_path (s : bytes) : bool := forallb (fun c => negb (contains_wildcards c)) (comps s).
+Definition links_literal (view : list node) : bool := forallb literal_path (forest_links view).
+
 (* well-formed views: what a file system can hold (names are single non-special
    components, distinct among siblings; only directories have entries) *)
 Definition name_ok (c : bytes) : bool :=
